@@ -157,6 +157,7 @@ func (s *State) truth(c *Term) int {
 		} else if c.Op == "eq" {
 			r = s.eqTruth(c.Args[0], c.Args[1])
 		} else if c.Op == "lt" {
+			r = s.ltByBounds(c.Args[0], c.Args[1])
 			// replace an operand by a constant it is known to equal
 			for i := 0; i < 2 && r < 0; i++ {
 				if k, ok := s.constOf(c.Args[i]); ok {
@@ -173,6 +174,58 @@ func (s *State) truth(c *Term) int {
 		r = 1 - r
 	}
 	return r
+}
+
+// ltByBounds decides c < X (or X < c) from another constant bound on X
+// recorded on the path: c2 < X with c2 >= c gives c < X, and so on.
+func (s *State) ltByBounds(a, b *Term) int {
+	ca, oka := termInt(a)
+	cb, okb := termInt(b)
+	if oka == okb {
+		return -1
+	}
+	for k, v := range s.facts {
+		f := s.fterm[k]
+		if f.Op != "lt" {
+			continue
+		}
+		x, y := f.Args[0], f.Args[1]
+		cx, okx := termInt(x)
+		cy, oky := termInt(y)
+		if oka && y == b && okx { // fact: cx < b (v) or !(cx < b): b <= cx
+			if v && cx >= ca {
+				return 1
+			}
+			if !v && cx <= ca {
+				return 0 // b <= cx <= ca, so not ca < b
+			}
+		}
+		if oka && x == b && oky { // fact: b < cy (v) or b >= cy
+			if v && cy <= ca+1 {
+				return 0 // b < cy <= ca+1, so b <= ca
+			}
+			if !v && cy > ca {
+				return 1
+			}
+		}
+		if okb && x == a && oky { // fact: a < cy
+			if v && cy <= cb {
+				return 1
+			}
+			if !v && cy >= cb {
+				return 0
+			}
+		}
+		if okb && y == a && okx { // fact: cx < a
+			if v && cx+1 >= cb {
+				return 0
+			}
+			if !v && cx < cb {
+				return 1
+			}
+		}
+	}
+	return -1
 }
 
 // constOf: a constant the term is known to equal through an eq fact.
@@ -200,7 +253,7 @@ func (s *State) constOf(t *Term) (*Term, bool) {
 // nonNil reports whether a term is known to denote a non-nil value.
 func nonNil(t *Term) bool {
 	switch t.Op {
-	case "alloc", "closure", "mapobj", "err", "gval", "nonnil", "func", "global", "field", "index", "slice":
+	case "alloc", "closure", "mapobj", "err", "gval", "nonnil", "func", "global", "field", "index", "slice", "bw":
 		return true
 	case "const":
 		return t.Aux != "nil"
@@ -247,6 +300,9 @@ func (s *State) eqTruth(a, b *Term) int {
 		return 1
 	}
 	if isEmptyStr(a) && nonEmptyStr(b) || isEmptyStr(b) && nonEmptyStr(a) {
+		return 0
+	}
+	if (a.Op == "positive" && b.isConst() && b.Aux == "0") || (b.Op == "positive" && a.isConst() && a.Aux == "0") {
 		return 0
 	}
 	if a.Op == "err" && b.Op == "err" && a.Aux != b.Aux {
@@ -307,7 +363,7 @@ type Client interface {
 	BeforeInline(x *Exec, st *State, fr *Frame, site ssa.CallInstruction, callee *ssa.Function, args []*Term)
 	AfterInline(x *Exec, st *State, fr *Frame, site ssa.CallInstruction, callee *ssa.Function, args []*Term, val *Term)
 	// OnStore is called for every store (after the memory update).
-	OnStore(x *Exec, st *State, fr *Frame, pos token.Pos, addr, val *Term)
+	OnStore(x *Exec, st *State, fr *Frame, pos token.Pos, addr, val, old *Term)
 	// OnBackEdge is called for every path of a loop body that reaches the
 	// back edge, before per-iteration terms are renamed.
 	OnBackEdge(x *Exec, st *State, fr *Frame, cur *Term)
@@ -335,6 +391,7 @@ type Exec struct {
 	marks                                                       []*Term // active loop cur-marks, innermost last
 	loops                                                       map[*ssa.Function]map[*ssa.BasicBlock]*loopInfo
 	Truncated                                                   int
+	loopMemo                                                    map[string][]blockOut
 }
 
 func newExec(p *Program, c Client) *Exec {
@@ -919,6 +976,52 @@ func loopMarkTerms(fr *Frame, li *loopInfo, outer *Term) (cur, all *Term) {
 
 // execLoop analyses loop li entered from pred with state st (DESIGN §3.1).
 func (x *Exec) execLoop(fr *Frame, li *loopInfo, pred *ssa.BasicBlock, st *State) []blockOut {
+	// identical abstract states entering the same loop have identical continuations
+	var mk0 strings.Builder
+	mk0.WriteString(fr.ctx)
+	mk0.WriteString(funcKey(fr.fn))
+	mk0.WriteString(strconv.Itoa(li.header.Index))
+	if pred != nil {
+		mk0.WriteString("<" + strconv.Itoa(pred.Index))
+	}
+	mk0.WriteString(x.curMark().key)
+	mk0.WriteString(st.key())
+	var evs []string
+	for v, t := range fr.env {
+		evs = append(evs, v.Name()+"="+t.key)
+	}
+	sort.Strings(evs)
+	mk0.WriteString(strings.Join(evs, ","))
+	for _, d := range fr.defers {
+		mk0.WriteString("D" + d.fnTerm.key)
+	}
+	memoKey := mk0.String()
+	if x.loopMemo == nil {
+		x.loopMemo = map[string][]blockOut{}
+	}
+	if outs, ok := x.loopMemo[memoKey]; ok {
+		x.NMerged++
+		res := make([]blockOut, len(outs))
+		for i, o := range outs {
+			res[i] = o
+			res[i].st = o.st.clone()
+			res[i].st.trace = st.trace
+			res[i].fr = o.fr.clone()
+		}
+		return res
+	}
+	outs := x.execLoopUncached(fr, li, pred, st)
+	saved := make([]blockOut, len(outs))
+	for i, o := range outs {
+		saved[i] = o
+		saved[i].st = o.st.clone()
+		saved[i].fr = o.fr.clone()
+	}
+	x.loopMemo[memoKey] = saved
+	return outs
+}
+
+func (x *Exec) execLoopUncached(fr *Frame, li *loopInfo, pred *ssa.BasicBlock, st *State) []blockOut {
 	x.NLoops++
 	cur, all := loopMarkTerms(fr, li, x.curMark())
 	var phis []*ssa.Phi
@@ -959,6 +1062,54 @@ func (x *Exec) execLoop(fr *Frame, li *loopInfo, pred *ssa.BasicBlock, st *State
 	head := st.clone()
 	head.vac[all.key] = true
 	delete(head.drawn, cur.key)
+	// Does the loop run at least once?  Decide the header's condition with the
+	// real entry values of the phis: if it cannot leave the loop, the state
+	// after the loop is a join over back-edge states only.
+	mustIterate := false
+	if len(entryPhi) == len(phis) {
+		if iff, ok := li.header.Instrs[len(li.header.Instrs)-1].(*ssa.If); ok {
+			pure := true
+			pf := fr.clone()
+			ps := st.clone()
+			for _, ph := range phis {
+				pf.env[ph] = entryPhi[ph]
+			}
+			for _, ins := range li.header.Instrs[len(phis) : len(li.header.Instrs)-1] {
+				switch ins.(type) {
+				case *ssa.BinOp, *ssa.UnOp, *ssa.DebugRef:
+					if u, ok := ins.(*ssa.UnOp); ok && u.Op == token.MUL {
+						pure = false
+					}
+				case *ssa.Call:
+					if b, ok := ins.(*ssa.Call).Call.Value.(*ssa.Builtin); !ok || b.Name() != "len" {
+						pure = false
+					}
+				default:
+					pure = false
+				}
+				if !pure {
+					break
+				}
+				alts := x.step(pf, ins, ps)
+				if len(alts) != 1 {
+					pure = false
+					break
+				}
+				if v, ok := ins.(ssa.Value); ok && alts[0].val != nil {
+					pf.env[v] = alts[0].val
+				}
+			}
+			if pure {
+				t := ps.truth(x.val(pf, iff.Cond))
+				if t == 1 && li.blocks[li.header.Succs[0]] && !li.blocks[li.header.Succs[1]] {
+					mustIterate = true
+				}
+				if t == 0 && li.blocks[li.header.Succs[1]] && !li.blocks[li.header.Succs[0]] {
+					mustIterate = true
+				}
+			}
+		}
+	}
 	phiKey := func() string {
 		var ks []string
 		for _, ph := range phis {
@@ -1010,7 +1161,7 @@ func (x *Exec) execLoop(fr *Frame, li *loopInfo, pred *ssa.BasicBlock, st *State
 					x.marks = append(x.marks, cur)
 					for _, ph := range phis {
 						if _, ok := phiVals[ph]; ok {
-							x.C.OnStore(x, o.st, o.fr, token.NoPos, mk("phicell", cur.key+ph.Name(), nil), x.val(o.fr, ph.Edges[pi]))
+							x.C.OnStore(x, o.st, o.fr, token.NoPos, mk("phicell", cur.key+ph.Name(), nil), x.val(o.fr, ph.Edges[pi]), nil)
 						}
 					}
 					x.marks = x.marks[:len(x.marks)-1]
@@ -1069,6 +1220,41 @@ func (x *Exec) execLoop(fr *Frame, li *loopInfo, pred *ssa.BasicBlock, st *State
 		if nk == entryKey && oldPhiKey == phiKey() {
 			// stable: exits computed from this head are the continuations
 			lastBacks = backs
+			if mustIterate && len(backs) > 0 {
+				// exits through the header happen after at least one iteration:
+				// recompute them from the join of the back-edge states alone
+				var hb *State
+				for _, b := range backs {
+					if hb == nil {
+						hb = b.clone()
+					} else {
+						hb = joinStates(hb, b, all)
+					}
+				}
+				hf := fr.clone()
+				for _, ph := range phis {
+					if v, ok := phiVals[ph]; ok {
+						hf.env[ph] = v
+					} else {
+						hf.env[ph] = mk("loopvar", ph.Name(), ph.Type(), cur)
+					}
+				}
+				x.marks = append(x.marks, cur)
+				outs2 := x.execFromHeader(hf, li, hb)
+				x.marks = x.marks[:len(x.marks)-1]
+				var kept []blockOut
+				for _, e := range exits {
+					if !(e.kind == outLoopExit && e.from == li.header) {
+						kept = append(kept, e)
+					}
+				}
+				for _, e := range outs2 {
+					if e.kind == outLoopExit && e.from == li.header {
+						kept = append(kept, e)
+					}
+				}
+				exits = kept
+			}
 			var res []blockOut
 			for _, e := range exits {
 				if e.kind == outLoopExit {
@@ -1244,7 +1430,31 @@ func joinVals(a, b *Term, where string) *Term {
 	if (a.Op == "list" && b.Op != "const") || (b.Op == "list" && a.Op != "const") {
 		return tList(false, append(append([]*Term{}, listMembers(a)...), listMembers(b)...))
 	}
-	return mk("top", where, a.Typ)
+	// scalars: keep a small set of alternatives (the simulator forks over
+	// them when the cell is read, which keeps typestate precise); widen to
+	// an unknown beyond that.
+	var alts []*Term
+	seen := map[string]bool{}
+	for _, t := range []*Term{a, b} {
+		ms := []*Term{t}
+		if t.Op == "oneof" {
+			ms = t.Args
+		}
+		for _, m := range ms {
+			if m.Op == "top" {
+				return mk("top", where, a.Typ)
+			}
+			if !seen[m.key] {
+				seen[m.key] = true
+				alts = append(alts, m)
+			}
+		}
+	}
+	if len(alts) > 4 {
+		return mk("top", where, a.Typ)
+	}
+	sort.Slice(alts, func(i, j int) bool { return alts[i].key < alts[j].key })
+	return mk("oneof", "", a.Typ, alts...)
 }
 
 // joinStates merges back-edge state b into head candidate h.
